@@ -5,7 +5,7 @@
 # 3. applies the patch to /repo, runs the listed checks, ALWAYS restores /repo afterwards
 set -u
 NAME=$1; DEMO=$2; shift 2
-W=/tmp/seed_$NAME
+W=/tmp/${SEEDPREFIX:-seed}_$NAME
 OUT=/verif/seeded/$NAME; mkdir -p $OUT
 cd $W || exit 3
 git diff -- src yuvxyb-math Cargo.toml > $OUT/patch.diff
